@@ -86,6 +86,20 @@ class Opaque:
 
 
 @dataclass(frozen=True)
+class IInfo:
+    bits: int
+    signed: bool = True
+
+    @property
+    def max(self) -> int:
+        return 2 ** (self.bits - 1) - 1 if self.signed else 2 ** self.bits - 1
+
+    @property
+    def min(self) -> int:
+        return -(2 ** (self.bits - 1)) if self.signed else 0
+
+
+@dataclass(frozen=True)
 class Sym:
     """A symbolic expression built from opaque values: attribute loads, calls, external functions."""
 
@@ -319,7 +333,7 @@ _TYPE_NAMES = {'int': int, 'tuple': tuple, 'list': list, 'str': str, 'bool': boo
 
 
 def _concrete(v: Any) -> bool:
-    if isinstance(v, (AxArr, Flat, Cat, DiagOf, Obj, Func, Ref, ClassRef, _Unk, Opaque, Promoted, Built, Sym)):
+    if isinstance(v, (AxArr, Flat, Cat, DiagOf, Obj, Func, Ref, ClassRef, _Unk, Opaque, Promoted, Built, Sym, IInfo)):
         return False
     if isinstance(v, (tuple, list, set, frozenset)):
         return all(_concrete(x) for x in v)
@@ -579,6 +593,28 @@ class Interp:
             if isinstance(args[0], AxArr):
                 return True
             return UNK
+        if path == 'jnp.iinfo' and len(args) == 1:
+            x = args[0]
+            if isinstance(x, IInfo):
+                return x
+            if isinstance(x, Ref):
+                m_ = __import__('re').fullmatch(r'(u?)int(8|16|32|64)', x.path.split('.')[-1])
+                if m_:
+                    return IInfo(int(m_.group(2)), not m_.group(1))
+            return UNK
+        if path == 'functools.reduce' and len(args) in (2, 3) and not kwargs:
+            items = self.iterate(args[1])
+            if len(args) == 3:
+                acc = args[2]
+            elif items:
+                acc, items = items[0], items[1:]
+            else:
+                raise Raised('TypeError')
+            for x in items:
+                acc = self.call(args[0], [acc, x], {}, None)
+            return acc
+        if path in ('jnp.array', 'jnp.asarray') and len(args) >= 1 and isinstance(args[0], (bool, int, float)) :
+            return args[0]
         if path in ('typing.cast', 'typing_extensions.cast') and len(args) == 2:
             return args[1]
         if path == 'operator.index' and len(args) == 1:
@@ -677,6 +713,8 @@ class Interp:
                 return getattr(v, name)
             return UNK
         if isinstance(v, slice) and name in ('start', 'stop', 'step'):
+            return getattr(v, name)
+        if isinstance(v, IInfo) and name in ('max', 'min', 'bits'):
             return getattr(v, name)
         if v is str and name in ('maketrans', 'join'):
             return getattr(str, name)
@@ -788,8 +826,12 @@ class Interp:
                 except Undecided:
                     return UNK
             return Ref(q)
+        if ident == 'len':
+            return self._len
         if ident in _PURE_BUILTINS:
             return _PURE_BUILTINS[ident]
+        if ident == 'len':
+            return self._len
         if ident == 'getattr':
             return self._getattr
         if ident == 'hasattr':
@@ -807,6 +849,25 @@ class Interp:
         if ident in ('Ellipsis',):
             return Ellipsis
         return UNK
+
+    def _len(self, v: Any) -> Any:
+        if isinstance(v, Obj):
+            if '__record_fields__' in v.attrs:
+                return len(v.attrs['__record_fields__'])
+            r = self.table.resolve(v.cls, '__len__')
+            if r is None or not isinstance(r.node, ast.FunctionDef):
+                return UNK
+            return self.call(Func(r.node, Env(module_of(r.node)), v, r.found_on), [], {}, None)
+        if isinstance(v, AxArr):
+            if not v.axes:
+                raise Raised('TypeError')
+            return v.axes[0][1]
+        if v is UNK or isinstance(v, (Opaque, Sym, Flat, Cat, DiagOf, Func, Ref, ClassRef)):
+            return UNK
+        try:
+            return len(v)
+        except TypeError:
+            raise Raised('TypeError')
 
     def _getattr(self, o: Any, name: Any, *default: Any) -> Any:
         if not isinstance(name, str):
@@ -1169,6 +1230,8 @@ class Interp:
             return UNK
         if isinstance(v, AxArr):
             return v
+        if self.symbolic and isinstance(v, (Opaque, Sym)):
+            return Sym({ast.USub: 'neg', ast.UAdd: 'pos', ast.Invert: '~'}[type(e.op)], (v,))
         if isinstance(e.op, ast.USub):
             return -v
         if isinstance(e.op, ast.UAdd):
@@ -1180,6 +1243,11 @@ class Interp:
     def _e_BinOp(self, e, env):
         a, b = self.eval(e.left, env), self.eval(e.right, env)
         if a is UNK or b is UNK:
+            return UNK
+        if self.symbolic and (isinstance(a, (Opaque, Sym)) or isinstance(b, (Opaque, Sym))):
+            names = {ast.Add: '+', ast.Sub: '-', ast.Mult: '*', ast.BitAnd: '&', ast.BitOr: '|', ast.FloorDiv: '//', ast.Mod: '%', ast.Div: '/', ast.Pow: '**', ast.MatMult: '@'}
+            if type(e.op) in names:
+                return Sym(names[type(e.op)], (a, b))
             return UNK
         if isinstance(a, AxArr) or isinstance(b, AxArr):
             if isinstance(e.op, ast.MatMult):
@@ -1205,6 +1273,18 @@ class Interp:
 
     def _e_Compare(self, e, env):
         left = self.eval(e.left, env)
+        if self.symbolic:
+            vals = [left] + [self.eval(c, env) for c in e.comparators]
+            if any(isinstance(v, (Opaque, Sym)) for v in vals) and not any(v is UNK for v in vals):
+                names = {ast.Lt: '<', ast.LtE: '<=', ast.Gt: '>', ast.GtE: '>=', ast.Eq: '==', ast.NotEq: '!='}
+                if all(type(o) in names for o in e.ops):
+                    parts = [Sym(names[type(o)], (x, y)) for o, x, y in zip(e.ops, vals, vals[1:])]
+                    out = parts[0]
+                    for p_ in parts[1:]:
+                        out = Sym('&', (out, p_))
+                    return out
+                return UNK
+            # (the comparators were evaluated once already: evaluation is pure)
         result: Any = True
         for o, r in zip(e.ops, e.comparators):
             right = self.eval(r, env)
